@@ -66,7 +66,7 @@ Section Defs.
   Definition np_interp (xp fp : list T) (x : T) : T :=
     match xp, fp with
     | x0 :: _, f0 :: _ =>
-        if x <=? x0 then f0
+        if x <? x0 then f0                 (* x = xp[0] falls through: with repeated leading nodes numpy takes the last of them *)
         else if nth_d xp (length xp - 1) <=? x then nth_d fp (length fp - 1)
         else interp_in xp fp x
     | _, _ => n0
